@@ -78,16 +78,25 @@ def ObjLen (p : Prims N) (h : Heap N) (toInt : N → Int) (v ret : V N) : Int :=
 
 /-! ### Concat -/
 
-/-- `Concat(values...) string`: `top := reg.Top(); for … { reg.Push(value) }; ret := stringConcat(ls, len(values),
-    reg.Top()-1); reg.SetTop(top); return LVAsString(ret)`.
-    With no operand at all `stringConcat(ls, 0, top-1)` reads `reg.Get(top-1)` — whatever lies below: `below`
-    (`none` = the registry is empty: a slice index -1) — and its loop does not run. -/
+/-- `Concat(values...) string`: `if len(values) == 0 { return "" }` (repair of C10-concat-no-operand: nothing is read,
+    nothing is called); otherwise `top := reg.Top(); for … { reg.Push(value) }; ret := stringConcat(ls, len(values),
+    reg.Top()-1); reg.SetTop(top); return LVAsString(ret)`. -/
 inductive ConcatRes (N : Type) where
   | goPanic (site : String)
   | res (log : List (Call N)) (r : Except ErrKind String)
 deriving DecidableEq, Repr
 
-def Concat (p : Prims N) (h : Heap N) (ret : V N → List (V N) → V N) (values : List (V N)) (below : Option (V N)) :
+def Concat (p : Prims N) (h : Heap N) (ret : V N → List (V N) → V N) (values : List (V N)) : ConcatRes N :=
+  match values with
+  | [] => .res [] (.ok "")
+  | _ =>
+    let (log, r) := stringConcat p h ret values
+    .res log (r.map (lvAsString p))
+
+/-- `Concat` as it was BEFORE the repair of C10-concat-no-operand: with no operand at all `stringConcat(ls, 0, top-1)`
+    reads `reg.Get(top-1)` — whatever lies below: `below` (`none` = the registry is empty: a slice index -1) — and its
+    loop does not run (Props/C10 `concat_no_operand_before_fix_reads_stack`). -/
+def ConcatOld (p : Prims N) (h : Heap N) (ret : V N → List (V N) → V N) (values : List (V N)) (below : Option (V N)) :
     ConcatRes N :=
   match values with
   | [] =>
